@@ -6,6 +6,10 @@ every message the whole mapping API of con.ports and con.original_ports is compa
 pvf.ref.portview.  Statistics: replies split into parts with the MORE flag, interleaved with other
 messages and other requests' replies; the aggregated events and RawStatsReply raised on the nexus and
 on the connection are compared with what the property statement prescribes.
+Several connections: 2..3 switches that use the same port numbers are connected at the same time in one
+world; the script interleaves their handshakes, notifications, features replies, statistics parts and
+stream closures; after every message EVERY live connection's views are compared with its own reference
+and every statistics event is attributed to the connection it names.
 """
 import itertools
 
@@ -25,13 +29,23 @@ LEVEL_TEXT = ("Exploration: all port-status sequences up to length 3 (thorough: 
               "Hypothesis histories (<= 12 notifications over 5 port numbers, <= 3 requests of <= 6 parts) are fed as bytes into "
               "a handshaken Connection; after every message the complete mapping API of con.ports / con.original_ports is "
               "compared with an independent reference view and every statistics event with an independent reassembly rule. "
+              "The same with two or three connections alive at once (exhaustive <= 2 notifications for either of two switches "
+              "with the same port numbers x every placement of the second switch's handshake; every merge of a 3-part and a "
+              "2-part reply of two switches; Hypothesis scripts of <= 16 items over 2..3 switches): every connection's view "
+              "and statistics are judged against that connection's own messages only. Statistics replies of types without "
+              "an aggregated event (vendor, undefined) travel in the streams as further requests. "
               "Bounded search plus sampling, no proof.")
 LEVEL_NOTE = ("trusts the independent encoder pvf.ref.swbytes; field-level decoding is C01's subject and only the fields that "
               "identify an entry are compared; TCP segmentation is C02's subject, each message is delivered by one read()")
 RULE = ("a case is either (features reply with 0..4 ports, k notifications delivered before the handshake is finished by the barrier reply or by the barrier-unsupported error, then "
         "<= 12 port-status / features messages) or (<= 3 statistics requests, each a list of parts, and a stream that merges "
         "the parts with other messages), each optionally with listeners that halt events on the nexus / the connection; non-trivial when a deleted port is re-added, a port is renamed or changes hardware "
-        "address, or a reply has >= 3 parts; distinct by SHA-1 of the canonical JSON of the case")
+        "address, or a reply has >= 3 parts; or (kind 'multi') 2..3 connection descriptions (dpid, features reply, how the handshake ends, optional "
+        "statistics reply as a list of parts) and a script of items [hs1 | hs2 | ps | feat | sp | close, connection index, ...] "
+        "(an item for a connection that is not up yet brings it up first; items for a closed connection are skipped), non-trivial when a message "
+        "arrives for one connection while another live connection has state it could disturb: a notification for a port number another live connection has or has deleted, "
+        "a features reply / handshake while another connection has a deleted port, a statistics part while another connection's reply is incomplete, "
+        "or a closure while others live; distinct by SHA-1 of the canonical JSON of the case")
 ASSUMPTIONS = [
   "OFPPR_ADD and OFPPR_MODIFY both carry the complete new description of the port and set view[port_no]; OFPPR_DELETE of an unknown port is a no-op",
   "when several current ports share a name or hardware address a lookup by it may return any of them",
@@ -42,6 +56,9 @@ ASSUMPTIONS = [
   "port-status messages that arrive before a features reply (the first, or a second one during the handshake) are superseded by it: the view is the LAST features reply with the notifications that FOLLOW it applied",
   "statistics xids cover the whole 32-bit range including 0",
   "a later request may reuse the xid (and type) of an earlier one once that one is complete; their entries must not be merged either",
+  "connections are independent: what arrives on one connection (handshake, features reply, notification, statistics part, end of stream) changes nothing in any other connection's port views or statistics assembly, also when two live connections report the same datapath id",
+  "a connection's views are judged only while it is up (after its handshake, before its stream ends); notifications buffered during its handshake count once it is up",
+  "a statistics reply whose type has no aggregated event (OFPST_VENDOR, types OpenFlow 1.0 does not define) raises RawStatsReply per part and nothing else; it counts as 'another statistics reply' for the contiguity of the judged ones; handling any well-formed statistics reply must not make the message handler raise (Connection.read() would swallow it; the harness wraps the handlers to see it)",
   "error messages used as interleaved traffic carry no data (an error with data hit the separate, now fixed, hexdump defect recorded under C09)",
 ]
 EXHAUSTIVE_SCOPE = {
@@ -52,8 +69,15 @@ EXHAUSTIVE_SCOPE = {
             "reply halted on the nexus or on the connection x aggregated event halted nowhere/nexus/connection x 3 ways of halting; "
             "0..3 notifications buffered during the handshake (all sequences of <= 2, all of 3 on one port) x 4 initial sets x "
             "handshake finished by barrier reply / by the barrier-unsupported error; "
-            "all 2-notification sequences with PortStatus/FeaturesReceived listeners halting on nexus or connection"),
-  "thorough": "as quick with notification sequences <= 4 from every initial subset and <= 5 from the full set",
+            "all 2-notification sequences with PortStatus/FeaturesReceived listeners halting on nexus or connection; "
+            "vendor / undefined statistics types in 1..3 parts alone, unfinished, and before / between / after the two parts of a judged reply x 4 types; "
+            "two connections whose switches both number their ports 1, 2 (other names and addresses): every sequence of <= 2 notifications from a 24-letter "
+            "alphabet (2 connections x 2 ports x 6 shapes) x every placement (start, finish) of the second connection's handshake from the full initial sets, "
+            "two placements from 3 other pairs of initial sets; one notification then a further features reply (4 port subsets) on either connection then nothing / a delete / an add; "
+            "notification, closure of either stream, notification; a third switch connecting after every 2-notification sequence; every merge of a 3-part reply on one "
+            "connection with a 2-part (or desc) reply on the other x same/other type x same/other xid, also with the final part missing"),
+  "thorough": ("as quick with notification sequences <= 4 from every initial subset and <= 5 from the full set; two connections: all placements from all 4 pairs of initial sets, "
+               "both ways of finishing the handshake, and every sequence of 3 notifications with the second handshake (in one piece) at every position"),
 }
 
 PORT_NOS = [1, 2, 3, 4, 0xfffe]
@@ -89,14 +113,17 @@ class _Once(object):
 class _Con(object):
   """a controller-side connection taken through the handshake"""
 
-  def __init__(self, out):
+  def __init__(self, out, w=None, dpid=None, once=None):
+    """w: an existing World to live in (several connections at the same time); by default a fresh one"""
     setup()
     import pox.openflow.of_01 as of_01
     from pox.lib.addresses import EthAddr
     self.EthAddr = EthAddr
     self.out = out
-    self.once = _Once(out)
-    self.w = _W.World()
+    self.once = once if once is not None else _Once(out)
+    self.owns_world = w is None
+    self.w = _W.World() if w is None else w
+    self.dpid = DPID if dpid is None else dpid
     self.sock = _W.FakeSock()
     self.con = of_01.Connection(self.sock)
     self.step = -1
@@ -105,7 +132,8 @@ class _Con(object):
     self.xid = 0x100
 
   def close(self):
-    self.w.close()
+    if self.owns_world:
+      self.w.close()
 
   def feed(self, data):
     self.sock.feed(data)
@@ -123,13 +151,13 @@ class _Con(object):
     self.feed(sb.hello(0))
     for reason, rec in pre:
       self.feed(sb.port_status(0, reason, rec))
-    self.feed(sb.features_reply(1, DPID, ports))
+    self.feed(sb.features_reply(1, self.dpid, ports))
     early = list(early)
     if again is not None:
       j, ports2 = again
       for reason, rec in early[:j]:
         self.feed(sb.port_status(0, reason, rec))
-      self.feed(sb.features_reply(2, DPID, ports2))
+      self.feed(sb.features_reply(2, self.dpid, ports2))
       early = early[j:]
     msgs, rest = sb.split(bytes(self.sock.sent))
     bx = [x for v, t, x, b in msgs if t == sb.OFPT_BARRIER_REQUEST]
@@ -143,10 +171,29 @@ class _Con(object):
       self.feed(sb.error(bx[0], sb.OFPET_BAD_REQUEST, sb.OFPBRC_BAD_TYPE, sb.barrier_request(bx[0])))
     else:
       self.feed(sb.barrier_reply(bx[0]))
+    self._established()
+
+  def _established(self):
     if self.con.connect_time is None:
       raise HarnessError("handshake did not complete")
     # message handlers run inside read()'s catch-all; remember what they raise
     self.con.handlers = [self._wrap(h) for h in self.con.handlers]
+
+  # the handshake in two steps, so that other connections' traffic can arrive in between
+  def hs1(self, ports):
+    self.feed(sb.hello(0))
+    self.feed(sb.features_reply(1, self.dpid, ports))
+
+  def hs2(self, finish="barrier"):
+    msgs, rest = sb.split(bytes(self.sock.sent))
+    bx = [x for v, t, x, b in msgs if t == sb.OFPT_BARRIER_REQUEST]
+    if len(bx) != 1:
+      raise HarnessError("unexpected barrier requests during the handshake: %r" % (bx,))
+    if finish == "error":
+      self.feed(sb.error(bx[0], sb.OFPET_BAD_REQUEST, sb.OFPBRC_BAD_TYPE, sb.barrier_request(bx[0])))
+    else:
+      self.feed(sb.barrier_reply(bx[0]))
+    self._established()
 
   def _wrap(self, h):
     def wrapped(con, msg):
@@ -212,13 +259,15 @@ def _lookup(f, *a):
 _SENTINEL = object()
 
 
-def _probe(c, P, view, ref, which, when, names, addrs):
+def _probe(c, P, view, ref, which, when, names, addrs, extra=None):
   """compare one PortCollection with one reference view through the whole mapping API"""
   once = c.once
   EthAddr = c.EthAddr
   want_keys = sorted(view)
+  extra = extra or {}
 
   def fail(clause, msg, **k):
+    k.update(extra)
     once.fail(clause, "%s %s: %s" % (which, when, msg), coll=which, **k)
 
   # ---- size, keys, iteration
@@ -382,6 +431,8 @@ def _show_op(op):
 # =========================================================================== statistics
 
 LIST_TYPES = {"flow": sb.OFPST_FLOW, "table": sb.OFPST_TABLE, "port": sb.OFPST_PORT, "queue": sb.OFPST_QUEUE}
+# statistics types for which POX has no aggregated event: the vendor extension type and types OpenFlow 1.0 does not define
+OPAQUE_TYPES = {"vendor": 0xffff, "undefined-6": 6, "undefined-0x1234": 0x1234}
 EVENT_OF = {"flow": "FlowStatsReceived", "table": "TableStatsReceived", "port": "PortStatsReceived",
             "queue": "QueueStatsReceived", "desc": "SwitchDescReceived", "agg": "AggregateFlowStatsReceived"}
 
@@ -418,6 +469,19 @@ def _tag_of_entry(t, e):
   raise HarnessError(t)
 
 
+def _all_tags(req):
+  """what the aggregated event of a request must carry"""
+  t = req["t"]
+  if t in LIST_TYPES:
+    return [g for part in req["parts"] for g in part]
+  if t == "desc":
+    return ["mfr%d" % req["parts"][0][0]]
+  if t == "agg":
+    g = req["parts"][0][0]
+    return [(g * 2, g * 3, g)]
+  return []
+
+
 def _part_bytes(req, j):
   t = req["t"]
   tags = req["parts"][j]
@@ -428,6 +492,9 @@ def _part_bytes(req, j):
     return sb.desc_stats_reply(req["xid"], mfr="mfr%d" % tags[0])
   if t == "agg":
     return sb.aggregate_stats_reply(req["xid"], packet_count=tags[0] * 2, byte_count=tags[0] * 3, flow_count=tags[0])
+  if t in OPAQUE_TYPES:
+    # vendor statistics start with the 4-byte vendor id; the rest is opaque
+    return sb.stats_reply(req["xid"], OPAQUE_TYPES[t], b"\x00\x00\x23\x20" + bytes(g & 0xff for g in tags), more=more)
   raise HarnessError(t)
 
 
@@ -566,14 +633,13 @@ def case_stats(case, out):
         t = req["t"]
         inf = info[r]
         evs = fired.get(r, [])
-        if t in LIST_TYPES:
-          all_tags = inf["tags"]
-        elif t == "desc":
-          all_tags = ["mfr%d" % req["parts"][0][0]]
-        else:
-          g = req["parts"][0][0]
-          all_tags = [(g * 2, g * 3, g)]
+        all_tags = _all_tags(req)
         ident = "request %d (%s, xid %#x, parts %r)" % (r, t, req["xid"], [len(p) for p in req["parts"]])
+        if t in OPAQUE_TYPES:
+          # no aggregated event exists for these; nothing may be raised in their name
+          for step, kind, tags in evs:
+            once.fail("wrong-event-type", "%s: raised %s on the %s" % (ident, kind, level), level=level, type="opaque")
+          continue
         after_exc = first_exc is not None and inf["started"] and part_steps[r][-1] >= first_exc
         for step, kind, tags in evs:
           if kind != EVENT_OF[t]:
@@ -604,6 +670,15 @@ def case_stats(case, out):
             once.fail("aggregate-missing", "%s arrived contiguously and completely but no aggregated event on the %s" % (ident, level), level=level, type=t)
           elif evs[0][2] != all_tags:
             once.fail("aggregate-incomplete", "%s: the event on the %s has entries %r, all parts together have %r" % (ident, level, evs[0][2], all_tags), level=level, type=t)
+    # ---- a well-formed statistics reply (of whatever type) must not make its handler raise
+    seen_exc = set()
+    for s_, e in c.excs:
+      k = exc_key(e, clause="stats-handler-raised")
+      kk = tuple(sorted(k.items()))
+      if kk not in seen_exc:
+        seen_exc.add(kk)
+        what = stream[s_] if 0 <= s_ < len(stream) else None
+        out.violations.append({"key": k, "msg": "handling stream item %d %r the message handler raised %r (read() logs and swallows it)" % (s_, what, e)})
     # ---- labels
     nt = False
     for r, req in enumerate(reqs):
@@ -621,6 +696,10 @@ def case_stats(case, out):
         out.label("stats:interleaved-with-another-reply")
       if any(len(p) == 0 for p in req["parts"]):
         out.label("stats:empty-part")
+      if req["t"] in OPAQUE_TYPES and sent[r]:
+        out.label("stats:reply-of-a-type-without-aggregated-event")
+        if n > 1:
+          out.label("stats:multipart-reply-of-a-type-without-aggregated-event")
     if len(reqs) > 1:
       out.label("stats:several-requests")
     if any(len(rs) > 1 for rs in by_xid.values()):
@@ -640,6 +719,255 @@ def case_stats(case, out):
     c.close()
 
 
+# =========================================================================== several connections at the same time
+
+DPIDS = [0x2a, 0x2b, 0x2c]
+
+
+def case_multi(case, out):
+  """Several switches are connected to the controller at the same time.  Each has its own features reply, its own
+  port-status notifications and (optionally) its own multipart statistics reply; the script interleaves them.  After
+  every message EVERY live connection's port view is compared with ITS OWN reference (its features reply with its
+  notifications applied), and every statistics event is attributed to the connection it names."""
+  setup()
+  w = _W.World()
+  try:
+    once = _Once(out)
+    specs = case["cons"]
+    n = len(specs)
+    if not 1 <= n <= 4:
+      raise HarnessError("1..4 connections")
+    cons = [None] * n             # _Con
+    refs = [pv.PortView() for _ in range(n)]
+    state = ["new"] * n           # new -> handshaking -> up -> closed
+    sent = [0] * n                # statistics parts sent
+    part_steps = [[] for _ in range(n)]
+    log = []                      # (level, owner index or None, kind, step, connection index named by the event, xids, tags)
+    step = [0]
+    names = list(NAMES)
+    addrs = list(HWS)
+    for spec in specs:
+      for r in spec["feat"]:
+        if r["name"] not in names:
+          names.append(r["name"])
+        if bytes(r["hw"]) not in addrs:
+          addrs.append(bytes(r["hw"]))
+    for op in case["script"]:
+      recs = [op[3]] if op[0] == "ps" else (op[2] if op[0] == "feat" else [])
+      for r in recs:
+        if r["name"] not in names:
+          names.append(r["name"])
+        if bytes(r["hw"]) not in addrs:
+          addrs.append(bytes(r["hw"]))
+    ev_kinds = sorted(set(EVENT_OF.values()))
+    kind_type = dict((k, t) for t, k in EVENT_OF.items())
+
+    def index_of(con):
+      for i, c in enumerate(cons):
+        if c is not None and c.con is con:
+          return i
+      return None
+
+    def rec(level, owner, kind):
+      def h(e):
+        who = index_of(e.connection)
+        if kind == "RawStatsReply":
+          log.append((level, owner, kind, step[0], who, [e.ofp.xid], None))
+          return
+        t = kind_type[kind]
+        parts = e.ofp if isinstance(e.ofp, list) else [e.ofp]
+        if t in LIST_TYPES:
+          tags = [_tag_of(t, x) for x in e.stats]
+        elif t == "desc":
+          tags = [e.stats.mfr_desc]
+        else:
+          tags = [(e.stats.packet_count, e.stats.byte_count, e.stats.flow_count)]
+        log.append((level, owner, kind, step[0], who, [p.xid for p in parts], tags))
+      return h
+
+    for k in ev_kinds + ["RawStatsReply"]:
+      w.nexus.addListenerByName(k, rec("nexus", None, k))
+
+    flags = set()
+
+    def start(i):
+      c = _Con(out, w=w, dpid=specs[i].get("dpid", DPIDS[i % len(DPIDS)]), once=once)
+      cons[i] = c
+      c.step = step[0]
+      for k in ev_kinds + ["RawStatsReply"]:
+        c.con.addListenerByName(k, rec("con", i, k))
+      if any(refs[j]._deleted for j in range(n) if j != i and state[j] == "up"):
+        flags.add("features-reply-while-another-connection-has-a-deleted-port")
+      c.hs1(specs[i]["feat"])
+      refs[i].features(specs[i]["feat"])
+      state[i] = "handshaking"
+
+    def finish(i):
+      cons[i].hs2("error" if specs[i].get("finish") == "error" else "barrier")
+      state[i] = "up"
+
+    def ensure_up(i):
+      if state[i] == "new":
+        start(i)
+      if state[i] == "handshaking":
+        finish(i)
+
+    def others_up(i):
+      return [j for j in range(n) if j != i and state[j] == "up"]
+
+    def probe_all(when, actor):
+      for j in range(n):
+        if state[j] != "up":
+          continue
+        scope = "receiving-connection" if j == actor else "bystander-connection"
+        whenj = "(connection %d, dpid %#x; %s) %s" % (j, cons[j].dpid, scope, when)
+        _probe(cons[j], cons[j].con.ports, refs[j].current, refs[j], "ports", whenj, names, addrs, {"scope": scope})
+        _probe(cons[j], cons[j].con.original_ports, refs[j].original, refs[j], "original_ports", whenj, names, addrs, {"scope": scope})
+
+    for s, op in enumerate(case["script"]):
+      step[0] = s
+      kind = op[0]
+      i = op[1] % n
+      if state[i] == "closed":
+        out.label("multi:op-for-a-closed-connection-skipped")
+        continue
+      for c in cons:
+        if c is not None:
+          c.step = s
+      if kind == "hs1":
+        if state[i] == "new":
+          start(i)
+      elif kind == "hs2":
+        ensure_up(i)
+      elif kind == "ps":
+        reason, r = op[2], op[3]
+        if state[i] == "new":
+          ensure_up(i)
+        if state[i] == "handshaking":
+          flags.add("notification-buffered-during-handshake")
+        for j in others_up(i):
+          if r["no"] in refs[j].current or r["no"] in refs[j].original:
+            flags.add("%s-of-a-port-number-another-live-connection-has" % ("add", "delete", "modify")[reason])
+          if r["no"] in refs[j]._deleted and r["no"] not in refs[j].current and reason != pv.OFPPR_DELETE:
+            flags.add("add-of-a-port-number-another-live-connection-has-deleted")
+        cons[i].feed(sb.port_status(0, reason, r))
+        refs[i].status(reason, r)
+      elif kind == "feat":
+        ensure_up(i)
+        if any(refs[j]._deleted for j in others_up(i)):
+          flags.add("features-reply-while-another-connection-has-a-deleted-port")
+        cons[i].feed(sb.features_reply(cons[i].next_xid(), cons[i].dpid, op[2]))
+        refs[i].features(op[2])
+      elif kind == "sp":
+        req = specs[i].get("stats")
+        if req is None or sent[i] >= len(req["parts"]):
+          continue
+        ensure_up(i)
+        if any(0 < sent[j] < len(specs[j]["stats"]["parts"]) for j in others_up(i) if specs[j].get("stats")):
+          flags.add("stats-part-while-another-connection's-reply-is-incomplete")
+        j = sent[i]
+        sent[i] += 1
+        part_steps[i].append(s)
+        cons[i].feed(_part_bytes(req, j))
+      elif kind == "close":
+        if state[i] == "new":
+          continue
+        if others_up(i):
+          flags.add("connection-closed-while-others-live")
+        cons[i].sock.eof = True
+        if cons[i].con.read() is not False:
+          raise HarnessError("read() at end of stream did not report the closure")
+        cons[i].con.close()        # what the OpenFlow task does when read() returns False
+        state[i] = "closed"
+      else:
+        raise HarnessError("unknown op %r" % (op,))
+      probe_all("after script item %d %r" % (s, _show_mop(op)), i)
+    step[0] = len(case["script"])
+
+    # ---- statistics: every connection's reply is assembled on its own
+    for level in ("nexus", "con"):
+      for i in range(n):
+        req = specs[i].get("stats")
+        if cons[i] is None:
+          continue
+        mine = [x for x in log if x[0] == level and (x[4] == i if level == "nexus" else x[1] == i)]
+        if level == "con":
+          for x in mine:
+            if x[4] != i:
+              once.fail("event-names-another-connection", "%s raised on connection %d names connection %r" % (x[2], i, x[4]), level=level)
+        raws = sorted(x[3] for x in mine if x[2] == "RawStatsReply")
+        if raws != part_steps[i]:
+          once.fail("raw-stats-reply", "connection %d: RawStatsReply on the %s at script items %r, its parts arrived at %r" % (i, level, raws, part_steps[i]), level=level, scope="several-connections")
+        evs = [x for x in mine if x[2] != "RawStatsReply"]
+        if req is None:
+          if evs:
+            once.fail("merged", "connection %d never received a statistics reply but %s was raised for it on the %s" % (i, evs[0][2], level), level=level, what="connection")
+          continue
+        t = req["t"]
+        all_tags = _all_tags(req)
+        complete = sent[i] == len(req["parts"])
+        ident = "connection %d (%s, xid %#x, parts %r, %d sent)" % (i, t, req["xid"], [len(p) for p in req["parts"]], sent[i])
+        for x in evs:
+          _, _, kind, at, _, xids, tags = x
+          if kind != EVENT_OF.get(t):
+            once.fail("wrong-event-type", "%s: raised %s on the %s" % (ident, kind, level), level=level, type=t if t in EVENT_OF else "opaque")
+            continue
+          foreign = [g for g in tags if g not in all_tags]
+          if foreign:
+            once.fail("merged", "%s: the event on the %s contains entries %r of another connection's reply" % (ident, level, foreign), level=level, what="connection")
+          elif not complete:
+            once.fail("fired-without-final-part", "%s: aggregated event on the %s although the final part never arrived" % (ident, level), level=level)
+          elif at != part_steps[i][-1]:
+            once.fail("fired-at-wrong-time", "%s: aggregated event on the %s at script item %d, the final part is item %d" % (ident, level, at, part_steps[i][-1]),
+                      level=level, when="early" if at < part_steps[i][-1] else "late")
+          elif tags != all_tags:
+            once.fail("aggregate-incomplete", "%s: the event on the %s has entries %r, all parts together have %r" % (ident, level, tags, all_tags), level=level, type=t)
+        if len(evs) > 1:
+          once.fail("fired-more-than-once", "%s: %d aggregated events on the %s" % (ident, len(evs), level), level=level, type=t)
+        if complete and not evs and t in EVENT_OF:
+          once.fail("aggregate-missing", "%s: all parts arrived (no other reply on this connection) but no aggregated event on the %s" % (ident, level), level=level, type=t)
+      if level == "nexus":
+        for x in log:
+          if x[0] == "nexus" and x[4] is None:
+            once.fail("event-names-another-connection", "%s on the nexus names a connection that is none of the %d" % (x[2], n), level=level)
+    excs = [(c.excs[0][0], k, c.excs[0][1]) for k, c in enumerate(cons) if c is not None and c.excs]
+    if excs:
+      at, k, e = min(excs, key=lambda x: x[:2])
+      op = case["script"][at] if 0 <= at < len(case["script"]) else ["?", k]
+      clause = "stats-handler-raised" if op[0] == "sp" else "port-handler-raised"
+      out.violations.append({"key": exc_key(e, clause=clause), "msg": "connection %d: handling script item %d %s the message handler raised %r (read() logs and swallows it)" % (k, at, _show_mop(op), e)})
+
+    # ---- labels
+    started = sum(1 for c in cons if c is not None)
+    out.label("multi:connections:%d" % started)
+    for f in sorted(flags):
+      out.label("multi:" + f)
+    dp = [c.dpid for c in cons if c is not None]
+    if len(set(dp)) < len(dp):
+      out.label("multi:two-connections-with-the-same-dpid")
+    st_x = [specs[i]["stats"]["xid"] for i in range(n) if specs[i].get("stats") and sent[i]]
+    if len(st_x) > 1:
+      out.label("multi:stats-on-several-connections")
+      if len(set(st_x)) < len(st_x):
+        out.label("multi:same-stats-xid-on-two-connections")
+    for i in range(n):
+      for flag, label in ((refs[i].renamed, "ports:rename"), (refs[i].readded, "ports:delete-then-re-add"), (refs[i].hw_changed, "ports:hw-address-change")):
+        if flag:
+          out.label(label)
+    out.nontrivial = bool(flags - set(["notification-buffered-during-handshake"]))
+  finally:
+    w.close()
+
+
+def _show_mop(op):
+  if op[0] == "ps":
+    return "con %d %s" % (op[1], _show_op(["ps", op[2], op[3]]))
+  if op[0] == "feat":
+    return "con %d %s" % (op[1], _show_op(["feat", op[2]]))
+  return "con %d %s" % (op[1], {"hs1": "hello + features reply", "hs2": "handshake finished", "sp": "next statistics part",
+                                   "close": "stream closed by the switch"}.get(op[0], op[0]))
+
+
 # =========================================================================== dispatch
 
 def run_case(case):
@@ -649,6 +977,8 @@ def run_case(case):
     case_ports(case, out)
   elif case["k"] == "stats":
     case_stats(case, out)
+  elif case["k"] == "multi":
+    case_multi(case, out)
   else:
     raise HarnessError("unknown case kind %r" % (case["k"],))
   return out
@@ -729,6 +1059,99 @@ def enum_ports(tier):
           ops = [list(s) for s in seq]
           ops.insert(pos, ["feat", [_rec(n) for n in feat2]])
           yield {"k": "ports", "feat": feat, "early": 0, "ops": ops}
+
+
+# ---- several connections
+
+def _alphabet_of(ci, ports):
+  """the 6 notification shapes per port for connection ci; connection 1's ports have the same NUMBERS as connection
+  0's but other names and addresses, so that anything that leaks from one view into the other shows"""
+  if ci % 2 == 0:
+    return [["ps", ci, a[1], a[2]] for a in _alphabet(ports)]
+  a = []
+  for n in ports:
+    base = dict(name="eth%d" % (n + 2), hw=HWS[n + 1])
+    a.append(["ps", ci, pv.OFPPR_ADD, _rec(n, **base)])
+    a.append(["ps", ci, pv.OFPPR_ADD, _rec(n, name=("foo", "bar")[n % 2], hw=base["hw"])])
+    a.append(["ps", ci, pv.OFPPR_MODIFY, _rec(n, config=1, **base)])
+    a.append(["ps", ci, pv.OFPPR_MODIFY, _rec(n, name=("foo", "bar")[n % 2], hw=base["hw"])])
+    a.append(["ps", ci, pv.OFPPR_MODIFY, _rec(n, name=base["name"], hw=HWS[7] if n == 1 else HWS[4])])
+    a.append(["ps", ci, pv.OFPPR_DELETE, _rec(n, **base)])
+  return a
+
+
+def _feat_of(ci, nos):
+  if ci % 2 == 0:
+    return [_rec(n) for n in nos]
+  return [_rec(n, name="eth%d" % (n + 2), hw=HWS[n + 1]) for n in nos]
+
+
+def enum_multi(tier):
+  alpha = _alphabet_of(0, [1, 2]) + _alphabet_of(1, [1, 2])
+  inits = [([1, 2], [1, 2]), ([1, 2], [1]), ([1, 2], []), ([1], [1, 2])]
+  maxlen = 2 if tier == "quick" else 3
+  # (a) connection 0 is up; connection 1's handshake starts before item a and finishes before item b of every
+  #     sequence of <= 2 notifications for either connection (notifications for connection 1 before its features
+  #     reply make it connect first; those between a and b are buffered by its handshake)
+  for ia, ib in inits:
+    full = (ia, ib) == ([1, 2], [1, 2])
+    for finish in ("barrier", "error") if tier != "quick" else ("barrier",):
+      cons = [{"dpid": DPIDS[0], "feat": _feat_of(0, ia)}, {"dpid": DPIDS[1], "feat": _feat_of(1, ib), "finish": finish}]
+      for L in range(maxlen + 1):
+        if L == 3 and not (full and finish == "barrier"):
+          continue
+        for seq in itertools.product(alpha, repeat=L):
+          for a in range(L + 1):
+            for b in range(a, L + 1):
+              # every placement from the full initial sets (quick: sequences of 2; thorough: of 3 with connection 1's
+              # handshake in one piece); from the others: up before everything, or started after the first item
+              # and finished at the end
+              if L == 3 and a != b:
+                continue
+              if not full and tier == "quick" and (a, b) not in ((0, 0), (min(1, L), L)):
+                continue
+              script = [["hs2", 0]]
+              for k in range(L + 1):
+                if k == a:
+                  script.append(["hs1", 1])
+                if k == b:
+                  script.append(["hs2", 1])
+                if k < L:
+                  script.append(list(seq[k]))
+              yield {"k": "multi", "cons": cons, "script": script}
+  # (b) both up; one notification, then another features reply on either connection
+  subsets = [[], [1], [2], [1, 2]]
+  for ia, ib in inits[:2] if tier == "quick" else inits:
+    cons = [{"dpid": DPIDS[0], "feat": _feat_of(0, ia)}, {"dpid": DPIDS[1], "feat": _feat_of(1, ib)}]
+    for op in alpha:
+      for ci in (0, 1):
+        for f2 in subsets:
+          for tail in ([], [alpha[5]], [alpha[12]]):      # nothing / delete port 1 on connection 0 / add port 1 on connection 1
+            yield {"k": "multi", "cons": cons, "script": [["hs2", 0], ["hs2", 1], list(op), ["feat", ci, _feat_of(ci, f2)]] + [list(x) for x in tail]}
+  # (c) both up; a notification, one switch closes its stream, another notification
+  cons = [{"dpid": DPIDS[0], "feat": _feat_of(0, [1, 2])}, {"dpid": DPIDS[1], "feat": _feat_of(1, [1, 2])}]
+  for op in alpha:
+    for ci in (0, 1):
+      for op2 in [None] + alpha:
+        yield {"k": "multi", "cons": cons, "script": [["hs2", 0], ["hs2", 1], list(op), ["close", ci]] + ([list(op2)] if op2 else [])}
+  # (d) a third switch (same port numbers) connects after two notifications on the first two
+  cons3 = cons + [{"dpid": DPIDS[2], "feat": _feat_of(0, [2]) + [_rec(3)]}]
+  for seq in itertools.product(alpha, repeat=2):
+    yield {"k": "multi", "cons": cons3, "script": [["hs2", 0], ["hs2", 1], list(seq[0]), list(seq[1]), ["hs2", 2]]}
+  # (e) statistics: every merge of a 3-part reply on connection 0 with a 2-part reply on connection 1 (same or other
+  #     type, same or other xid), also with the final part of either missing
+  one = [{"no": 1, "hw": HWS[0], "name": "eth1"}]
+  for t in ("flow", "table", "port", "queue"):
+    for t2, xid2 in ((t, 0x31), (t, 0x32), ("port" if t != "port" else "queue", 0x31), ("desc", 0x31)):
+      parts2 = [[41], [42, 43]] if t2 in LIST_TYPES else [[41]]
+      cons = [{"dpid": DPIDS[0], "feat": one, "stats": {"t": t, "xid": 0x31, "parts": [[1, 2], [3], [4, 5]]}},
+              {"dpid": DPIDS[1], "feat": one, "stats": {"t": t2, "xid": xid2, "parts": parts2}}]
+      total = 3 + len(parts2)
+      for pos in itertools.combinations(range(total), len(parts2)):
+        stream = [["sp", 1] if i in pos else ["sp", 0] for i in range(total)]
+        yield {"k": "multi", "cons": cons, "script": stream}
+        yield {"k": "multi", "cons": cons, "script": stream[:-1]}
+        yield {"k": "multi", "cons": cons, "script": stream + [list(alpha[5]), list(alpha[17])]}
 
 
 def _weak_compositions(n, k):
@@ -815,6 +1238,22 @@ def enum_stats(tier):
         for gap_other in (False, True):
           stream = [["p", 0]] * len(sizes) + ([["o", 0]] if gap_other else []) + [["p", 1]] * len(sizes2)
           yield {"k": "stats", "reqs": [a, b], "stream": stream}
+  # (d) replies of a type that has no aggregated event (vendor, undefined types), 1..3 parts, alone and before / between /
+  #     after the parts of a judged reply: the judged reply still aggregates when it is contiguous, no handler raises
+  for ot in sorted(OPAQUE_TYPES):
+    for k in (1, 2, 3):
+      o = {"t": ot, "xid": 0x51, "parts": [[90 + j] for j in range(k)]}
+      yield {"k": "stats", "reqs": [o], "stream": [["p", 0]] * k}
+      yield {"k": "stats", "reqs": [o], "stream": [["p", 0]] * (k - 1)}
+      for t in ("flow", "table", "port", "queue"):
+        a = {"t": t, "xid": 0x21, "parts": [[1, 2], [3]]}
+        b = {"t": t, "xid": 0x22, "parts": [[4], [5, 6]]}
+        for gap in range(3):
+          stream = [["p", 0]] * 2
+          stream[gap:gap] = [["p", 1]] * k
+          yield {"k": "stats", "reqs": [a, o, b], "stream": stream + [["p", 2]] * 2}
+        # the opaque reply is never finished; a judged one follows
+        yield {"k": "stats", "reqs": [a, o, b], "stream": [["p", 0]] * 2 + [["p", 1]] * (k - 1) + [["p", 2]] * 2}
   # (c) two multipart replies, every merge of 3 + 2 parts, and a reply whose final part never arrives
   for t, t2 in (("flow", "flow"), ("flow", "port"), ("table", "queue")):
     a = {"t": t, "xid": 0x31, "parts": [[1, 2], [3], [4, 5]]}
@@ -885,7 +1324,7 @@ def _s_stats(draw, tier):
   reqs = []
   tag = 1
   for r in range(n):
-    t = draw(st.sampled_from(["flow", "flow", "table", "port", "queue", "desc", "agg"]))
+    t = draw(st.sampled_from(["flow", "flow", "flow", "table", "table", "port", "port", "queue", "queue", "desc", "agg", "desc", "agg"] + sorted(OPAQUE_TYPES)))
     if t in LIST_TYPES:
       k = draw(st.integers(1, 6))
       sizes = [draw(st.sampled_from([0, 1, 1, 2, 3])) for _ in range(k)]
@@ -893,6 +1332,10 @@ def _s_stats(draw, tier):
         sizes[sizes.index(max(sizes))] -= 1
       parts = _parts_from_sizes(sizes, tag)
       tag += sum(sizes)
+    elif t in OPAQUE_TYPES:
+      k = draw(st.sampled_from([1, 1, 2, 3]))
+      parts = _parts_from_sizes([1] * k, tag)
+      tag += k
     else:
       parts = [[tag]]
       tag += 1
@@ -940,6 +1383,60 @@ def _s_stats(draw, tier):
   return {"k": "stats", "reqs": reqs, "stream": stream, "halt": draw(_s_halt(["raw", "agg"]))}
 
 
+@st.composite
+def _s_multi(draw, tier):
+  """2..3 switches connected at the same time: each its own features reply (the same small pool of port numbers, names
+  and addresses, so numbers and attributes collide across connections), an optional multipart statistics reply, and a
+  script of <= 16 items that interleaves handshakes, notifications, further features replies, statistics parts and
+  stream closures of all of them"""
+  n = draw(st.sampled_from([2, 2, 2, 3]))
+  same_dpid = draw(st.integers(0, 7)) == 0
+  cons = []
+  tag = 1
+  for i in range(n):
+    nos = draw(st.lists(st.sampled_from(PORT_NOS), unique=True, max_size=4))
+    spec = {"dpid": DPIDS[0] if (same_dpid and i < 2) else DPIDS[i], "feat": [draw(_s_rec([x])) for x in nos],
+            "finish": draw(st.sampled_from(["barrier", "barrier", "error"]))}
+    if draw(st.integers(0, 3)) != 0:
+      t = draw(st.sampled_from(["flow", "flow", "table", "port", "queue", "desc", "agg", "vendor"]))
+      if t in LIST_TYPES:
+        sizes = [draw(st.sampled_from([0, 1, 1, 2])) for _ in range(draw(st.sampled_from([1, 2, 2, 3, 3, 4])))]
+        parts = _parts_from_sizes(sizes, tag)
+        tag += sum(sizes)
+      elif t in OPAQUE_TYPES:
+        k = draw(st.sampled_from([1, 2]))
+        parts = _parts_from_sizes([1] * k, tag)
+        tag += k
+      else:
+        parts = [[tag]]
+        tag += 1
+      spec["stats"] = {"t": t, "xid": draw(st.sampled_from([0x40, 0x40, 0x41, 0])), "parts": parts}
+    cons.append(spec)
+  # mostly all switches are connected before anything else happens; otherwise some connect in the course of the script
+  script = [["hs2", i] for i in range(draw(st.sampled_from([n, n, n, 1, 0])))]
+  closed = False
+  for _ in range(draw(st.integers(2, 14))):
+    g = draw(st.integers(0, 39))
+    ci = draw(st.integers(0, n - 1))
+    if g < 22:
+      script.append(["ps", ci, draw(st.sampled_from([0, 1, 1, 2])), draw(_s_rec())])
+    elif g < 30:
+      script.append(["sp", ci])
+    elif g == 30 and not closed:     # (Hypothesis favours the ends of an integer range: the rare item sits inside)
+      closed = True                  # at most one switch goes away
+      script.append(["close", ci])
+    elif g < 33:
+      script.append(["hs2", ci])
+    elif g < 35:
+      script.append(["hs1", ci])
+      if draw(st.booleans()):        # a notification that the handshake has to buffer (when ci was not connected yet)
+        script.append(["ps", ci, draw(st.sampled_from([0, 1, 2])), draw(_s_rec())])
+    else:
+      nos2 = draw(st.lists(st.sampled_from(PORT_NOS), unique=True, max_size=4))
+      script.append(["feat", ci, [draw(_s_rec([x])) for x in nos2]])
+  return {"k": "multi", "cons": cons, "script": script}
+
+
 def plan(tier):
   if tier == "quick":
     return [
@@ -947,10 +1444,14 @@ def plan(tier):
       Enum("stats-partitions", lambda: enum_stats(tier), shards=8),
       Hyp("port-histories", lambda: _s_ports(tier), examples=1500, shards=8),
       Hyp("stats-streams", lambda: _s_stats(tier), examples=2500, shards=8),
+      Enum("several-connections", lambda: enum_multi(tier), shards=16),
+      Hyp("several-connections-histories", lambda: _s_multi(tier), examples=1500, shards=8),
     ]
   return [
     Enum("port-status-sequences", lambda: enum_ports(tier), shards=16),
     Enum("stats-partitions", lambda: enum_stats(tier), shards=16),
-    Hyp("port-histories", lambda: _s_ports(tier), examples=150000, shards=16),
+    Hyp("port-histories", lambda: _s_ports(tier), examples=120000, shards=16),
     Hyp("stats-streams", lambda: _s_stats(tier), examples=250000, shards=16),
+    Enum("several-connections", lambda: enum_multi(tier), shards=16),
+    Hyp("several-connections-histories", lambda: _s_multi(tier), examples=20000, shards=16),
   ]
